@@ -2,6 +2,7 @@
 """Rebuilds section 16 of DESIGN.md and SENSITIVITY.md from seeded/*/meta.json + detection*.txt."""
 import json, glob, os, re
 rows=[]
+equiv=[]
 for d in sorted(glob.glob('seeded/*/')):
     sid=os.path.basename(d.rstrip('/'))
     meta=json.load(open(d+'meta.json')) if os.path.exists(d+'meta.json') else {}
@@ -24,6 +25,9 @@ for d in sorted(glob.glob('seeded/*/')):
     json.dump(meta,open(d+'meta.json','w'),indent=1)
     caught=[f"{c} ({k})" if k else c for v,c,k in dets if v.startswith('CAUGHT')]
     missed=[c for v,c,k in dets if v.startswith('MISSED')]
+    if meta.get('equivalent'):
+        equiv.append((sid, what, meta['equivalent']))
+        continue
     rows.append((sid, what, '; '.join(caught) or '—', ', '.join(missed) or '—'))
 out=["## 16. Seeded changes: which checks catch which\n",
 "Each change below came from an independent sub-agent that saw only the property text and its own\nscratch worktree; it compiles, passes the 342-test baseline, and has a demonstration that fails with it and\npasses without (all three re-run by `/tmp/mut/confirm.sh`, results in `seeded/<id>/meta.json`). Detection = the\nlisted check run on `/repo` with the patch applied (`seed_matrix.sh`: apply, `./check <id> quick`, undo).\n",
@@ -32,6 +36,11 @@ for r in rows:
     out.append("| %s | %s | %s | %s |" % tuple(x.replace('|','/') for x in r))
 n_c=sum(1 for r in rows if r[2]!='—'); 
 out.append(f"\n{n_c} of {len(rows)} seeded changes are caught by at least one registered check at the quick tier.\n")
+if equiv:
+    out.append("Not counted (kept for the record):\n")
+    for sid, what, why in equiv:
+        out.append(f"* {sid} — {what} — {why}")
+    out.append("")
 text='\n'.join(out)
 open('SENSITIVITY.md','w').write("# Sensitivity: seeded property-breaking changes\n\n"+text.split('\n',1)[1])
 s=open('DESIGN.md').read()
